@@ -1,3 +1,4 @@
+import HmcVerif.Model.Bounds
 import HmcVerif.Model.Linear
 import HmcVerif.Real.Lit
 import HmcVerif.Real.Grad
@@ -100,6 +101,30 @@ theorem gradient_is_derivative [DecidableEq κ] (G : Matrix κ ι ℝ) (W : Matr
 
 /-- `forward(m) = G m` -/
 theorem forward_eq (G : Matrix κ ι ℝ) (m : ι → ℝ) : (fun v => G *ᵥ v) m = G *ᵥ m := rfl
+
+/-! ### "after a pickle round trip": round trips are invisible in every history of the object -/
+
+/-- the box in force after any history of bound updates and pickle/copy round trips is the box the
+    bound updates alone produce -/
+theorem roundtrips_invisible {V : Type} (clash : V → V → Bool) (b : Option V × Option V) (ops : List (DistOp V)) :
+    distRun clash b ops = distRun clash b (ops.filter (fun o => !o.isRoundTrip)) := by
+  unfold distRun
+  induction ops generalizing b with
+  | nil => rfl
+  | cons o rest ih =>
+    cases o with
+    | setBounds lo up => simp only [List.foldl_cons, List.filter_cons, DistOp.isRoundTrip, Bool.not_false, if_true]; exact ih _
+    | roundTrip => simp only [List.foldl_cons, List.filter_cons, DistOp.isRoundTrip, Bool.not_true, distStep]; exact ih _
+
+/-- in particular bounds set before a round trip are in force after it -/
+theorem bounds_survive_roundtrip {V : Type} (clash : V → V → Bool) (b : Option V × Option V) (l u : V) (h : clash l u = false) (k : Nat) :
+    distRun clash b (DistOp.setBounds (.ok l) (.ok u) :: List.replicate k DistOp.roundTrip) = (some l, some u) := by
+  rw [roundtrips_invisible]
+  have : (List.replicate k (DistOp.roundTrip : DistOp V)).filter (fun o => !o.isRoundTrip) = [] := by
+    induction k with
+    | zero => rfl
+    | succ n ih => simpa [List.replicate_succ, DistOp.isRoundTrip] using ih
+  simp [distRun, List.filter_cons, DistOp.isRoundTrip, this, distStep, updateBounds, h]
 
 /-! ### non-vacuity: an over-determined 3×2 system -/
 example : (Matrix.of ![![1, 0], ![0, 1], ![1, 1]] : Matrix (Fin 3) (Fin 2) ℝ) *ᵥ ![1, 2] = ![1, 2, 3] := by
